@@ -47,7 +47,7 @@ var goSrcFuncs = []string{
 	"Iter.Float", "Iter.FloatFlags", "Iter.Int", "Iter.Uint",
 	"Array.ForEach", "Array.DeleteElems", "Array.FirstType", "Object.ForEach", "Object.DeleteElems",
 	"isValidTrueAtom", "isValidFalseAtom", "isValidNullAtom", "parseNumber",
-	"Iter.MarshalJSONBuffer",
+	"Iter.MarshalJSONBuffer", "escapeBytes",
 }
 
 type goBlock struct {
@@ -432,6 +432,17 @@ func (t *gsTr) expr(e ast.Expr, want gty) (string, gty) {
 				return fmt.Sprintf("(.idxB %s %s)", a, idx), tyU8
 			}
 		}
+		if id, ok := x.X.(*ast.Ident); ok && (id.Name == "shouldEscape" || id.Name == "valToHex") {
+			idx, ity := t.expr(x.Index, tyU8)
+			if ity != tyU8 {
+				gsDie(e, "table index type")
+			}
+			rty := tyU8
+			if id.Name == "shouldEscape" {
+				rty = tyBool
+			}
+			return fmt.Sprintf("(.tbl %s %s)", strconv.Quote(id.Name), idx), rty
+		}
 		if id, ok := x.X.(*ast.Ident); ok && (id.Name == "TagToType" || id.Name == "tagOpenToClose" || id.Name == "isNumberRune" || id.Name == "structuralOrWhitespaceNegated") {
 			idx, ity := t.expr(x.Index, tyU8)
 			if ity != tyU8 {
@@ -786,6 +797,9 @@ func (t *gsTr) binary(x *ast.BinaryExpr, want gty) (string, gty) {
 	case token.SHR, token.SHL:
 		a, at := t.expr(x.X, want)
 		b, bt := t.expr(x.Y, tyInt)
+		if at == tyU8 && x.Op == token.SHR && bt == tyInt {
+			return fmt.Sprintf("(.bin .shr %s %s)", a, b), tyU8
+		}
 		if at != tyU64 || bt != tyInt {
 			gsDie(x, "shift operands")
 		}
